@@ -9,6 +9,7 @@ import (
 
 	"golang.org/x/tools/go/ssa"
 
+	"verif/internal/engine/bounds"
 	"verif/internal/engine/locks"
 	"verif/internal/engine/paths"
 	"verif/internal/ir"
@@ -630,4 +631,83 @@ func cleanValue(v ssa.Value, producesClean func(*ssa.Function, int) bool, d int)
 		return false
 	}
 	return producesClean(call.Common().StaticCallee(), d+1)
+}
+
+const ruleB15 = "B15-queue-relayout-in-bounds"
+
+// queueRelayoutInBounds: B15. The functions that give the in-flight queue a new ring (grow, and whatever else replaces
+// Ackqueue.ring: a shrink, a compaction) copy the entries with slice expressions over the old and the new ring. Under
+// the queue's cursor invariant - 0 <= head, tail < size == len(ring), 0 <= count <= size, established by the
+// constructor and kept by increment() - every index and slice bound in such a function is proven for every cursor
+// position (engine B). A re-layout that is right only for the cursor positions a test happens to produce (head in the
+// upper half, say) panics for the others - inside Acked() or Wait(), with the queue's mutex held.
+func (c *Ctx) queueRelayoutInBounds() {
+	c.R.Rule(ruleB15, "in every method of the in-flight queue that stores a new ring, each index and slice expression is in bounds for all cursor positions allowed by the queue invariant 0 <= head, tail < size == len(ring), 0 <= count <= size (abstract interpretation with linear facts).")
+	an := bounds.NewAnalyzer(c.P)
+	an.JoinFacts = true
+	an.Invariant = func(a *bounds.Analyzer, st *bounds.State, owner, field, obj string) (bounds.AVal, bool) {
+		if owner != "sessions.Ackqueue" {
+			return bounds.AVal{}, false
+		}
+		S := bounds.Sym("qsize@" + obj)
+		st.Add(bounds.GE(S, bounds.Const(1)))
+		switch field {
+		case "size":
+			return bounds.AVal{Kind: bounds.KInt, Int: S}, true
+		case "mask":
+			return bounds.AVal{Kind: bounds.KInt, Int: S.AddK(-1)}, true
+		case "ring":
+			return bounds.AVal{Kind: bounds.KSlice, Len: S}, true
+		case "head", "tail":
+			v := bounds.Sym("q" + field + "@" + obj)
+			st.Add(bounds.GE(v, bounds.Const(0)), bounds.LE(v, S.AddK(-1)))
+			return bounds.AVal{Kind: bounds.KInt, Int: v}, true
+		case "count":
+			v := bounds.Sym("qcount@" + obj)
+			st.Add(bounds.GE(v, bounds.Const(0)), bounds.LE(v, S))
+			return bounds.AVal{Kind: bounds.KInt, Int: v}, true
+		}
+		return bounds.AVal{}, false
+	}
+	var hosts []*ssa.Function
+	for _, fn := range c.whoWrites("sessions", "Ackqueue", "ring") {
+		if recvNamed(fn) == "Ackqueue" && fn.Parent() == nil {
+			hosts = append(hosts, fn)
+		}
+	}
+	sort.Slice(hosts, func(i, j int) bool { return fname(hosts[i]) < fname(hosts[j]) })
+	isHost := map[*ssa.Function]bool{}
+	var mark func(fn *ssa.Function, d int)
+	mark = func(fn *ssa.Function, d int) {
+		if fn == nil || fn.Blocks == nil || isHost[fn] || d > 2 || fn.Pkg == nil || fn.Pkg.Pkg.Path() != pkgSessions {
+			return
+		}
+		isHost[fn] = true
+		// the helpers the copies were moved into (copyTo, reindex): judged in the contexts of their calls from here
+		for _, call := range ir.Calls(fn) {
+			mark(call.Common().StaticCallee(), d+1)
+		}
+	}
+	for _, fn := range hosts {
+		mark(fn, 0)
+		an.Run(fn)
+	}
+	n := 0
+	for _, k := range an.Order {
+		o := an.Obls[k]
+		if !isHost[o.Instr.Parent()] {
+			continue
+		}
+		n++
+		if o.Proven {
+			c.R.Ok(ruleB15, k, c.P.InstrPos(o.Instr), fmt.Sprintf("%s: proven in %d context(s)", o.Desc, o.Contexts))
+		} else {
+			c.R.Bad(ruleB15, k, c.P.InstrPos(o.Instr), fmt.Sprintf("%s is not provable for every cursor position the queue invariant allows: the re-layout panics (slice bounds out of range) for the positions a test did not produce, inside a queue operation - the entries being released or registered are lost and the connection's processor dies with the queue's mutex held", o.Desc), o.Failed...)
+		}
+	}
+	c.R.Trusted = append(c.R.Trusted, "the in-flight queue's cursor invariant 0 <= head, tail < size == len(ring), 0 <= count <= size (established by newAckqueue, kept by increment(); the index rules T5 decide the individual updates)")
+	c.R.Count("functions giving the in-flight queue a new ring", len(hosts))
+	c.R.Count("index/slice sites in queue re-layout functions", n)
+	c.R.Floor("functions giving the in-flight queue a new ring (grow)", len(hosts), 1)
+	c.R.Floor("index/slice sites in queue re-layout functions (and the helpers they copy through)", n, 1)
 }
